@@ -10,9 +10,9 @@ def loops_for(cls, n, algos_full):
     out = []
     for root in range(n):
         if cls == "D":
-            out += ["loop out %d" % root, "loop in %d" % root]
+            out += ["loop out %d" % root, "loop in %d" % root, "loop ref %d" % root]
         else:
-            out += ["loop adj %d" % root]
+            out += ["loop adj %d" % root, "loop ref %d" % root]
         trs = (0, 1) if cls == "D" else (0,)
         for tr in trs:
             for algo in ("bfs", "dfs", "pmin", "pmax"):
